@@ -233,3 +233,65 @@ func VH13a_listener() {
 	verif.Assert(core.ZZIDsInUse() == 0, lab+"/pipe-ids-still-allocated-after-everything-closed")
 	verif.Assert(core.ZZSocketPipes(sock) == 0, lab+"/socket-still-tracks-pipes-after-close")
 }
+
+// VH13g_hook_swap: the application changes the socket's pipe event hook while
+// connections are in the middle of their life: from within the Attaching
+// callback it clears the hook, installs another one, or leaves it; after the
+// connection is attached the original hook is installed again (if it was
+// changed); then the peer leaves. Whatever hooks were in force when, the events
+// seen for that connection by all hooks together are Attaching, Attached,
+// Detached - each once, in this order: clearing or replacing the hook between
+// two callbacks of one connection loses none of them and invents none.
+func VH13g_hook_swap() {
+	lab := "C13/hook-swap"
+	rp := &recProto{live: map[uint32]mangos.ProtocolPipe{}}
+	sock := protocol.MakeSocket(rp)
+	var log []int
+	what := verif.Choice("in-attaching", 3) // 0: leave the hook, 1: clear it, 2: replace it by a second hook
+	dialSide := verif.Choice("dial-side", 2) == 1
+	var h1, h2 mangos.PipeEventHook
+	h2 = func(ev mangos.PipeEvent, p mangos.Pipe) { log = append(log, int(ev)) }
+	h1 = func(ev mangos.PipeEvent, p mangos.Pipe) {
+		log = append(log, int(ev))
+		if ev == mangos.PipeEventAttaching {
+			switch what {
+			case 1:
+				sock.SetPipeEventHook(nil)
+			case 2:
+				sock.SetPipeEventHook(h2)
+			}
+		}
+	}
+	sock.SetPipeEventHook(h1)
+	var tp *vt.Pipe
+	if dialSide {
+		vt.Install()
+		verif.Assert(sock.Dial("vt://peerX") == nil, lab+"/dial")
+		verif.Quiesce()
+		if len(vt.T.Dialers) == 1 && len(vt.T.Dialers[0].Pipes) == 1 {
+			tp = vt.T.Dialers[0].Pipes[0]
+		}
+	} else {
+		side := vt.Listen(sock, "a")
+		tp = side.Peer("c")
+	}
+	verif.Assert(tp != nil && !tp.Closed, lab+"/connection-not-established")
+	if tp == nil {
+		return
+	}
+	if what != 0 {
+		sock.SetPipeEventHook(h1)
+	}
+	what = 0 // from now on the hook stays
+	tp.Drop()
+	verif.Quiesce()
+	want := []int{int(mangos.PipeEventAttaching), int(mangos.PipeEventAttached), int(mangos.PipeEventDetached)}
+	// (a redial by the dialer may add a second connection's events after these three)
+	verif.Assert(len(log) >= 3, lab+"/an-event-of-the-connection-was-lost-when-the-hook-was-changed")
+	for i := 0; i < 3 && i < len(log); i++ {
+		verif.Assert(log[i] == want[i], lab+"/events-of-the-connection-not-Attaching-Attached-Detached")
+	}
+	verif.Reach("hook-swapped")
+	sock.Close()
+	verif.Quiesce()
+}
